@@ -332,6 +332,17 @@ def fu(q):
     return [float(q.value), q.unit]
 
 
+def at(lst, k):
+    """the k-th sample, or None when the list is too short (a history that is not one sample per instant)"""
+    return lst[k] if k < len(lst) else None
+
+
+def num_or_nan(x):
+    if isinstance(x, (int, float)) and not isinstance(x, bool):
+        return float(x)
+    return float('nan')                       # not a number (never equal to a model value)
+
+
 def complete_instants(pt, els):
     """number of instants every list holds a sample for (an exception in the middle of an instant leaves ragged lists)"""
     n = len(pt.time)
@@ -346,9 +357,9 @@ def history(pt, els, n=None):
     for k, t in enumerate(pt.time if n is None else pt.time[:n]):
         row = dict(time=fu(t))
         for name, short in VARS:
-            row[short] = [fu(e.time_variables[name][k]) for e in els]
-        row['pwm'] = float(els[0].time_variables['pwm'][k])
-        row['cur'] = fu(els[0].time_variables['electric current'][k]) if 'electric current' in els[0].time_variables else None
+            row[short] = [fu(at(e.time_variables[name], k)) for e in els]
+        row['pwm'] = num_or_nan(at(els[0].time_variables['pwm'], k))
+        row['cur'] = fu(at(els[0].time_variables['electric current'], k)) if 'electric current' in els[0].time_variables else None
         rows.append(row)
     return rows
 
